@@ -83,6 +83,16 @@ func obQueryComplete(c *rules.Ctx, id string) {
 	c.FilteredQueryComplete(ob, ir.Fetch, c.P.Field(relInterp, "programState", "CurrentBalanceQuery"))
 }
 
+func obCacheOwners(c *rules.Ctx, id string, r *rules.Roles) {
+	ob := c.R.Ob(id, "effects/cache-owner", "a number that may be the cached balance itself is rewritten in place only where postings are applied and in the save runner", 1)
+	c.CacheCellsWrittenByOwners(ob, r)
+}
+
+func obClampGrant(c *rules.Ctx, id string, r *rules.Roles) {
+	ob := c.R.Ob(id, "ctrl/clamp-grant", "where a draw is bounded by balance + grant, only a number that already contains the grant is reset to zero", 1)
+	c.ClampIncludesGrant(ob, r)
+}
+
 func obReaderUnaltered(c *rules.Ctx, id string, r *rules.Roles) {
 	ob := c.R.Ob(id, "origin/reader-unaltered", "the balance reader that bounds a draw returns cached balance minus pending draws and nothing else (no clamp before the overdraft grant is added)", 1)
 	c.ReaderReturnsUnaltered(ob, r)
